@@ -61,11 +61,25 @@ func (s *stateSet) size() int {
 }
 
 type foundViolation struct {
-	sig     string
-	what    string
-	choices []uint8
-	level   int
-	count   int64
+	sig      string
+	what     string
+	choices  []uint8 // canonical witness: the smallest (length, then lexicographic) choice list of the first level that shows it
+	hashes   []uint64
+	level    int
+	count    int64
+	reported bool
+}
+
+func lessChoices(a, b []uint8) bool {
+	if len(a) != len(b) {
+		return len(a) < len(b)
+	}
+	for i := range a {
+		if a[i] != b[i] {
+			return a[i] < b[i]
+		}
+	}
+	return false
 }
 
 type explorer struct {
@@ -173,13 +187,16 @@ func (e *explorer) handle(t *testing.T, level int, tk task, collect bool, out *[
 	}
 	e.perLevel[level][x.outcome()]++
 	wantSample := len(e.samples) < 6 && (level == 0 || e.perLevel[level][x.outcome()] == 1)
-	var first bool
 	if x.viol != nil {
 		fv := e.viols[x.viol.sig]
 		if fv == nil {
-			fv = &foundViolation{sig: x.viol.sig, what: x.viol.what, choices: append([]uint8{}, x.choices...), level: level}
+			fv = &foundViolation{sig: x.viol.sig, level: level}
 			e.viols[x.viol.sig] = fv
-			first = true
+		}
+		if !fv.reported && fv.level == level && (fv.choices == nil || lessChoices(x.choices, fv.choices)) {
+			fv.what = x.viol.what
+			fv.choices = append([]uint8{}, x.choices...)
+			fv.hashes = append([]uint64{}, x.hashes...)
 		}
 		fv.count++
 	}
@@ -187,19 +204,6 @@ func (e *explorer) handle(t *testing.T, level int, tk task, collect bool, out *[
 
 	if x.viol != nil {
 		e.violatingRuns.Add(1)
-		if first {
-			if e.confirm(t, x) {
-				tr := runOne(t, e.cfg, x.choices, x.hashes, true)
-				e.r.Violation(x.viol.sig, x.viol.what+fmt.Sprintf(" | deviations=%d choices=%v", level, choicesInts(x.choices)), map[string]any{
-					"config":  e.cfg,
-					"choices": choicesInts(x.choices),
-					"how":     "cd /verif/h && ./k5/run.sh replay <this file>",
-					"trace":   tr.trace,
-				})
-			} else {
-				e.abort.Store(true)
-			}
-		}
 	}
 	if wantSample {
 		tr := runOne(t, e.cfg, x.choices, x.hashes, true)
@@ -269,6 +273,7 @@ func (e *explorer) runLevel(t *testing.T, level int, tasks []task, collect bool,
 			})
 		}
 	})
+	e.reportViolations(t)
 	if e.abort.Load() || e.expired.Load() || sampleExpired.Load() {
 		return nil, false
 	}
@@ -276,6 +281,35 @@ func (e *explorer) runLevel(t *testing.T, level int, tasks []task, collect bool,
 		next = append(next, o...)
 	}
 	return next, true
+}
+
+// reportViolations runs after a level: for every new violation class the canonical witness
+// is replayed 5 times and, if it reproduces every time, handed to ev (replay file).
+func (e *explorer) reportViolations(t *testing.T) {
+	e.mu.Lock()
+	var todo []*foundViolation
+	for _, fv := range e.viols {
+		if !fv.reported && fv.choices != nil {
+			fv.reported = true
+			todo = append(todo, fv)
+		}
+	}
+	e.mu.Unlock()
+	sort.Slice(todo, func(i, j int) bool { return todo[i].sig < todo[j].sig })
+	for _, fv := range todo {
+		x := &execResult{choices: fv.choices, hashes: fv.hashes, viol: &violationInfo{sig: fv.sig, what: fv.what}}
+		if !e.confirm(t, x) {
+			e.abort.Store(true)
+			continue
+		}
+		tr := runOne(t, e.cfg, fv.choices, fv.hashes, true)
+		e.r.Violation(fv.sig, fv.what+fmt.Sprintf(" | deviations=%d choices=%v", fv.level, choicesInts(fv.choices)), map[string]any{
+			"config":  e.cfg,
+			"choices": choicesInts(fv.choices),
+			"how":     "cd /verif/h && ./k5/run.sh replay <this file>",
+			"trace":   tr.trace,
+		})
+	}
 }
 
 func (e *explorer) unknownViolation() bool {
